@@ -166,7 +166,8 @@ def dlHist (legacy : Bool) : Handler := fun args =>
 
 /-! ### counter sweep -/
 
-def mix (h x : UInt64) : UInt64 := h * 0x100000001b3 + x
+/-- FNV-1a style step on 64-bit words -/
+def mix (h x : UInt64) : UInt64 := (h ^^^ x) * 0x100000001b3
 
 def hex16 (h : UInt64) : String :=
   toHex ((List.range 8).map fun i => (h >>> (UInt64.ofNat (8 * (7 - i)))).toUInt8)
